@@ -297,6 +297,77 @@ Example C09_fragment_nonvacuous :
   ~ in_fragment (mkScn Ftp false false DialNone) (mkConn [[82;69;84;82;32;120;13;10]%N] TEof m0).
 Proof. unfold in_fragment; split; vm_compute; [discriminate|intros H; apply H; reflexivity]. Qed.
 
+(* ------------------------------------------------------------------ *)
+(* Datagrams that sit exactly on a buffer boundary.  The relaying services (copy, dns-proxy)
+   collect their datagram with
+       for n < len(buff) { k, err := conn.Read(buff[n:]); n += k; if err != nil { break } }
+   from listener.DummyUDPConn - possibly behind the server's peek wrapper, which hands the
+   datagram out in pieces - whose Read answers (0, nil), not end of stream, when it is given an
+   EMPTY slice ([dg_read]).  For ALL buffer sizes b >= 1, ALL datagrams (any length l, also
+   l = b and l > b) and ALL ways the datagram is cut into pieces, the loop ends - with the first
+   min(l, b) bytes - after at most l + pieces + 1 Reads and at most b + pieces + 1 Reads. *)
+Theorem C09_dgram_fill_loop_ends :
+  forall (b : nat) (c : dgconn) (fuel : nat),
+    (1 <= b)%nat -> (dg_weight c + 2 <= fuel)%nat ->
+    exists r, dg_loop true fuel b [] c 0 = Some (firstn (min (length (concat c)) b) (concat c), r) /\
+              (r <= length (concat c) + length c + 1)%nat /\ (r <= b + length c + 1)%nat.
+Proof.
+  intros b c fuel Hb Hf.
+  destruct (dg_loop_bounded_ends fuel b [] c 0) as (r & Hr & _ & H2 & H3); [cbn; lia|exact Hf|].
+  exists r. cbn [app length] in *. unfold dg_weight in H2.
+  replace (firstn (min (length (concat c)) b) (concat c)) with (firstn b (concat c)).
+  - repeat split; [exact Hr|lia|lia].
+  - destruct (Nat.le_ge_cases (length (concat c)) b).
+    + rewrite Nat.min_l by lia. now rewrite !firstn_all2 by lia.
+    + now rewrite Nat.min_r by lia.
+Qed.
+
+(* one datagram as the socket listener hands it over (one piece; none for a zero-length one):
+   ONE Read when it fills the buffer exactly or is longer, two when it is shorter - the exact
+   figures the correspondence run compares with the Read calls of the real handlers *)
+Theorem C09_dgram_one_datagram_reads :
+  forall (b : nat) (d : bytes) (f : nat),
+    (1 <= b)%nat ->
+    dg_loop true (S (S f)) b [] (dg_of d) 0 =
+    Some (firstn b d, match d with [] => 1 | _ => if (length d <? b)%nat then 2 else 1 end)%nat.
+Proof. exact dg_loop_one_datagram. Qed.
+
+(* the same loop without its condition ("for { ... }", relying on the connection to report
+   its end) is the same function on every datagram shorter than the buffer ... *)
+Theorem C09_dgram_bare_loop_same_below_fill :
+  forall (b : nat) (c : dgconn) (fuel : nat),
+    (length (concat c) < b)%nat ->
+    dg_loop false fuel b [] c 0 = dg_loop true fuel b [] c 0.
+Proof. intros; apply dg_loop_bare_same; cbn [length]; lia. Qed.
+
+(* ... and never ends on a datagram that fills the buffer: seeded change C09-g2 (buffer
+   65535 -> 65507 = the largest IPv4 datagram, loop condition dropped), kept as the witness
+   of the class; found by the size-boundary family of part 'dgram' *)
+Theorem C09_dgram_bare_loop_never_ends_on_fill :
+  forall (b : nat) (c : dgconn) (fuel : nat),
+    (b <= length (concat c))%nat -> dg_loop false fuel b [] c 0 = None.
+Proof. intros; apply dg_loop_bare_spins; cbn [length]; lia. Qed.
+
+Example C09_dgram_bare_loop_refuted :
+  forall fuel, dg_loop false fuel (N.to_nat 65507) [] [repeat 0%N (N.to_nat 65507)] 0 = None.
+Proof.
+  intros fuel; apply C09_dgram_bare_loop_never_ends_on_fill.
+  cbn [concat]; rewrite app_nil_r, repeat_length; lia.
+Qed.
+
+(* non-vacuity: exact fill, one byte less, one byte more, a peeked datagram, a zero-length one;
+   the bare loop on the exact fill, with plenty of fuel *)
+Example C09_dgram_loop_examples :
+  dg_loop true 10 4 [] [[1;2;3;4]%N] 0 = Some ([1;2;3;4]%N, 1%nat) /\
+  dg_loop true 10 4 [] [[1;2;3]%N] 0 = Some ([1;2;3]%N, 2%nat) /\
+  dg_loop true 10 4 [] [[1;2;3;4;5]%N] 0 = Some ([1;2;3;4]%N, 1%nat) /\
+  dg_loop true 10 4 [] [[1;2]%N; [3;4]%N] 0 = Some ([1;2;3;4]%N, 2%nat) /\
+  dg_loop true 10 4 [] [] 0 = Some ([], 1%nat) /\
+  dg_loop false 1000 4 [] [[1;2;3;4]%N] 0 = None /\
+  dg_loop false 10 4 [] [[1;2;3]%N] 0 = Some ([1;2;3]%N, 2%nat) /\
+  dg_relay [7;7;7]%N = Some ([7;7;7]%N, 2%nat).
+Proof. vm_compute. repeat split; reflexivity. Qed.
+
 Print Assumptions C09_terminates.
 Print Assumptions C09_released.
 Print Assumptions C09_history_flat_all.
@@ -322,3 +393,7 @@ Print Assumptions C09_released_other_services.
 Print Assumptions C09_history_additive.
 Print Assumptions C09_history_flat.
 Print Assumptions C09_vnc_queue_never_blocks_with_fix.
+Print Assumptions C09_dgram_fill_loop_ends.
+Print Assumptions C09_dgram_one_datagram_reads.
+Print Assumptions C09_dgram_bare_loop_same_below_fill.
+Print Assumptions C09_dgram_bare_loop_never_ends_on_fill.
